@@ -2,7 +2,7 @@
 from oblib import ob
 
 BOUNDS = {
-    "quick": "one struct type holding every merge-capable kind (nested struct, pointer to struct, map[string]int8, []int8, [2]int8, any, int8); j1 populates all fields with symbolic digits/letters/keys, j2 mentions exactly one member in one of three ways (value / null / partial or differently shaped value), keys drawn from {a,b,c} so equal and distinct keys both occur: 7 fields x 3 modes. The expected final value is written directly from the documented merge rules.",
+    "quick": "one struct type holding every merge-capable kind (nested struct, pointer to struct, map[string]int8, []int8, [2]int8, any, int8); j1 populates all fields with symbolic digits/letters/keys, j2 mentions exactly one member in one of three ways (value / null / partial or differently shaped value), keys drawn from {a,b,c} so equal and distinct keys both occur: 7 fields x 3 modes, plus element replacement in a []any and in an array of structs (also under UnmarshalArrayFromAnyLength alone). The expected final value is written directly from the documented merge rules.",
     "thorough": "same (the space of the 21 obligations is explored completely in both tiers).",
 }
 ASSUMPTIONS = [
@@ -16,4 +16,7 @@ def obligations(tier):
     for field in range(7):
         for mode in range(3):
             L.append(ob("merge/field=%d/mode=%d" % (field, mode), ".", "VerifC14Merge", [field, mode], covers=["second-unmarshal"], max_seconds=600))
+    for field in (7, 8):
+        for mode in (0, 1):
+            L.append(ob("merge/elements/field=%d/mode=%d" % (field, mode), ".", "VerifC14Merge", [field, mode], covers=["second-unmarshal"], max_seconds=600))
     return L
